@@ -102,6 +102,26 @@ def install(bsp, cfg):
                     'infos': [{'f': [W.f32bits(x) for x in (*i.s_off, i.s_shift, *i.t_off, i.t_shift, *i.lightmap_s_off, i.lightmap_s_shift,
                                                              *i.lightmap_t_off, i.lightmap_t_shift)],
                                'flags': i.flags.value, 'td': N.n(i._info)} for i in data]}
+        if lump is BSP_LUMPS.OVERLAYS:
+            fl = lambda o: [W.f32bits(x) for x in (o.u_min, o.u_max, o.v_min, o.v_max, *o.uv1, *o.uv2, *o.uv3, *o.uv4, *o.origin, *o.normal)]
+            return {'op': 'x_overlays', 'texinfo': N.ns(self.texinfo),
+                    'overlays': [{'id': o.id, 'texinfo': N.n(o.texture), 'faces': list(o.faces), 'ro': o.render_order, 'floats': fl(o),
+                                  'fmin': W.f32bits(o.fade_min_sq), 'fmax': W.f32bits(o.fade_max_sq),
+                                  'levels': [o.min_cpu, o.max_cpu, o.min_gpu, o.max_gpu]} for o in data]}
+        if lump is BSP_LUMPS.SURFEDGES:
+            from srctools.bsp import RevEdge
+            from srctools.math import Vec
+            verts = list(self.vertexes)
+            zeros = [N.n(v) for v in verts if v == Vec()]
+            fresh, dummy = 9000001 + len(log), 9500001 + len(log)
+            fv = zeros[0] if zeros else fresh
+            ed, ss = {dummy: (fv, fv)}, []
+            for e in data:
+                base = e.opposite if isinstance(e, RevEdge) else e
+                ed[N.n(base)] = (N.n(base.a), N.n(base.b))
+                ss.append([N.n(base), isinstance(e, RevEdge)])
+            return {'op': 'x_surfedges', 'layout': layout, 'verts': N.ns(verts), 'zeros': zeros, 'fresh': fresh, 'dummy': dummy,
+                    'ed': [[k, a, b] for k, (a, b) in ed.items()], 'ss': ss, '_nverts': len(verts), '_haszero': bool(zeros)}
         if lump is BSP_LUMPS.NODES:
             nd, todo = {}, list(data)
             while todo:
@@ -136,6 +156,14 @@ def install(bsp, cfg):
         if req['op'] == 'x_leafs':
             return {'leafs': list(out), 'leaffaces': L('LEAFFACES'), 'leafbrushes': L('LEAFBRUSHES'), 'mindist': L('LEAFMINDISTTOWATER'),
                     'tabs': {'faces': N.ns(self.faces), 'brushes': N.ns(self.brushes)}}
+        if req['op'] == 'x_overlays':
+            return {'overlays': list(out), 'fades': L('OVERLAY_FADES'), 'levels': L('OVERLAY_SYSTEM_LEVELS'), 'texinfo': N.ns(self.texinfo)}
+        if req['op'] == 'x_surfedges':
+            if not req['_haszero']:      # the Vec() the writer created and appended: give it the number announced to the model
+                obj = self.vertexes[req['_nverts']]
+                N.ids[id(obj)] = req['fresh']
+                N.keep.append(obj)
+            return {'surfedges': list(out), 'edges': L('EDGES'), 'verts': N.ns(self.vertexes)}
         if req['op'] == 'x_prims':
             return {'prims': list(out), 'indices': L('PRIMINDICES'), 'verts': L('PRIMVERTS')}
         if req['op'] == 'x_texinfo':
